@@ -68,12 +68,17 @@ func leafFor(kind string, ca, other *tlsm.CA, host string, client bool) *tls.Cer
 	return &c
 }
 
+// c16ServerPrep: how the Server's configuration is prepared. Normally DefaultServerTLSConfig alone; a process that is KMIP
+// server and KMIP client at once (a proxy, a cluster peer) with ONE configuration for both roles runs it through both helpers,
+// in either order - it still "was prepared by DefaultServerTLSConfig".
+var c16ServerPrep = func(cfg *tls.Config) { kmip.DefaultServerTLSConfig(cfg) }
+
 // attackServer: a peer with the given certificate / max version (or plaintext) talks to a Server prepared by DefaultServerTLSConfig.
 // Returns what ran on the server and whether a KMIP response came back.
 func attackServer(ca, other *tlsm.CA, serverCert tls.Certificate, certKind string, maxVer uint16, plaintext bool, timeout time.Duration, probe string) (events string, gotResponse bool, err error) {
 	cfg := &tls.Config{Certificates: []tls.Certificate{serverCert}, ClientCAs: ca.Pool,
 		MinVersion: tls.VersionTLS10, ClientAuth: tls.NoClientCert} // weak prior contents: the defaults must override them
-	kmip.DefaultServerTLSConfig(cfg)
+	c16ServerPrep(cfg)
 	var sa, ra, calls int32
 	s := &kmip.Server{TLSConfig: cfg, ReadTimeout: timeout, WriteTimeout: timeout}
 	s.SessionAuthHandler = func(c net.Conn) (interface{}, error) { atomic.AddInt32(&sa, 1); return nil, nil }
@@ -207,7 +212,7 @@ func runC16(r *Result, d *drv.Driver, tier string, seed int64, replay string) {
 	defer c16ChainTrust(r)
 	defer c16TicketForgery(r)
 	r.Rule = "exhaustive peer matrix against the real crypto/tls: a peer with certificate in {none, valid, self-signed, other CA, expired, wrong host, its own self-signed or foreign-CA leaf followed by a copy of a genuine client leaf / genuine server leaf / the CA certificate, a genuine leaf followed by junk} x max TLS version in {1.0, 1.1, 1.2, 1.3}, plus a plaintext peer, a peer that connects and leaves without sending anything, and one that leaves after the first bytes of a TLS record, " +
-		"attacks a Server (with read/write timeouts 2s, and with none) whose config (weak prior contents) went through DefaultServerTLSConfig - observed: session-auth / request-auth / handler invocations and whether a KMIP response came back; and a TLS server with each certificate x version impersonates towards a Client prepared by DefaultClientTLSConfig - observed: Connect result and application bytes received. Expected outcome = the model's handshake predicate. Plus client sequences: a trusting Client first, then a Client trusting only another CA against the same endpoint (TLS 1.2 and 1.3); a Server started by ListenAndServe whose own certificate chain (leaf + issuing CA, as servers are usually configured) comes from another CA than the one its clients must chain to: clients with a certificate from the client CA / from the server's issuing CA / self-signed / none (TLS 1.2 and 1.3, first and second start on the same configuration); and an outsider presenting a session ticket forged with keys the library itself yields for the server's public chain (ListenAndServe path). distinct = one per matrix cell"
+		"attacks a Server (with read/write timeouts 2s, and with none) whose config (weak prior contents) went through DefaultServerTLSConfig (alone; and, for a configuration shared by both roles, followed or preceded by DefaultClientTLSConfig) - observed: session-auth / request-auth / handler invocations and whether a KMIP response came back; and a TLS server with each certificate x version impersonates towards a Client prepared by DefaultClientTLSConfig - observed: Connect result and application bytes received. Expected outcome = the model's handshake predicate. Plus client sequences: a trusting Client first, then a Client trusting only another CA against the same endpoint (TLS 1.2 and 1.3); a Server started by ListenAndServe whose own certificate chain (leaf + issuing CA, as servers are usually configured) comes from another CA than the one its clients must chain to: clients with a certificate from the client CA / from the server's issuing CA / self-signed / none (TLS 1.2 and 1.3, first and second start on the same configuration); and an outsider presenting a session ticket forged with keys the library itself yields for the server's public chain (ListenAndServe path). distinct = one per matrix cell"
 	r.Exhaustive = true
 	ca, other := tlsm.NewCA("kmip-test-ca"), tlsm.NewCA("foreign-ca")
 	serverCert := tlsm.Leaf(ca, tlsm.LeafOpts{Host: "kmip.test"})
@@ -250,6 +255,36 @@ func runC16(r *Result, d *drv.Driver, tier string, seed int64, replay string) {
 			r.find(Finding{Kind: "disagreement", What: "a peer the TLS model admits was not served (crypto/tls assumption or harness)", Input: key, Expect: "served", Actual: fmt.Sprintf("%s response=%v", ev, resp)})
 		}
 	}
+	// one configuration for both roles: through both helpers, in either order
+	for _, prep := range []struct {
+		name string
+		f    func(cfg *tls.Config)
+	}{
+		{"DefaultServerTLSConfig then DefaultClientTLSConfig", func(cfg *tls.Config) { kmip.DefaultServerTLSConfig(cfg); kmip.DefaultClientTLSConfig(cfg) }},
+		{"DefaultClientTLSConfig then DefaultServerTLSConfig", func(cfg *tls.Config) { kmip.DefaultClientTLSConfig(cfg); kmip.DefaultServerTLSConfig(cfg) }},
+	} {
+		c16ServerPrep = prep.f
+		for _, k := range []string{"none", "valid", "selfSigned", "otherCA", "expired"} {
+			for _, vi := range []int{1, 2, 3} {
+				key := fmt.Sprintf("attack-server (configuration shared by both roles: %s) cert=%s max=%s", prep.name, k, tlsVersions[vi].name)
+				ev, resp, err := attackServer(ca, other, serverCert, k, tlsVersions[vi].v, false, 2*time.Second, "")
+				r.eval(key, true)
+				want := tlsVersions[vi].v >= tls.VersionTLS12 && k == "valid"
+				if err != nil {
+					r.find(Finding{Kind: "violation", What: "server misbehaved during the TLS matrix", Input: key, Actual: err.Error()})
+				}
+				served := ev != "sessionAuth=0 requestAuth=0 handler=0" || resp
+				if !want && served {
+					r.find(Finding{Kind: "violation", What: "KMIP was served to a peer without a verified TLS 1.2+ handshake (the Server's configuration went through both Default...TLSConfig helpers)", Input: key, Expect: "sessionAuth=0 requestAuth=0 handler=0, no response", Actual: fmt.Sprintf("%s response=%v", ev, resp)})
+				}
+				if want && !served {
+					r.find(Finding{Kind: "disagreement", What: "a peer the TLS model admits was not served (crypto/tls assumption or harness)", Input: key, Expect: "served", Actual: fmt.Sprintf("%s response=%v", ev, resp)})
+				}
+				r.Stats["shared-configuration-cells"]++
+			}
+		}
+	}
+	c16ServerPrep = func(cfg *tls.Config) { kmip.DefaultServerTLSConfig(cfg) }
 	for _, k := range certKinds {
 		if k == "none" {
 			continue
